@@ -79,6 +79,14 @@ SCENARIOS = [
         {"a": "RoaAdd", "c": "B", "r": ["p1", "a0"]}, {"a": "StepAll"},
         {"a": "RoaDelta", "c": "B", "add": [],
          "del": ["p1|a1", "p1|a2", "p1|a3", "p1|a0"]}, {"a": "StepAll"}]},
+    # the server's operator removes a publisher that has objects and adds
+    # it again (two stores: access and content)
+    {"id": "pubd", "keys": 280, "top": TOP, "prefix": WITH_ROA, "chain": [
+        {"a": "PubRemove", "c": "B"}, {"a": "StepAll"},
+        {"a": "PubAdd", "c": "B"}, {"a": "RepoSyncAll"}, {"a": "StepAll"},
+        # (one more publication, so that the files left stale by a cut in
+        # the re-publication above - a known finding - are written again)
+        {"a": "RoaAdd", "c": "B", "r": ["p1", "a2"]}, {"a": "StepAll"}]},
     # suspend / unsuspend / shrink / remove a child, delete a CA
     {"id": "remove", "keys": 200, "top": TOP, "prefix": WITH_ROA, "chain": [
         {"a": "ChildSuspend", "p": "A", "c": "B"}, {"a": "StepAll"},
@@ -593,7 +601,7 @@ def run(tier, seed):
     # anti-vacuity on what was exercised
     seen_cls = {cut_class(tw, k)[0] for k in cases}
     needed_cls = {"api", "sync_repo", "sync_parent", "update_rrdp"}
-    if not needed_cls <= seen_cls:
+    if not needed_cls <= seen_cls and not only:
         raise vlib.ToolError(f"operation classes never cut: "
                              f"{needed_cls - seen_cls}")
     modes = {k[3] for k in cases}
